@@ -97,9 +97,12 @@ func (s *state) walk(node ast.Node) {
 	case *ast.HeaderParamNode:
 		// TODO: Validate param types.
 	case *ast.ListNode:
+		// a block is a variable scope: {let}s made inside are not visible after it.
+		s.context.push()
 		for _, node := range node.Nodes {
 			s.walk(node)
 		}
+		s.context.pop()
 
 		// Output nodes ----------
 	case *ast.PrintNode:
